@@ -112,6 +112,13 @@ class CRef:
             a = self.ev(e[1], env)
             t = promote(a[0])
             return (t, wrap(~self.conv(a, t)[1], t))
+        if k == "lnot":
+            return (INT, int(self.ev(e[1], env)[1] == 0))
+        if k in ("land", "lor"):
+            # (both operands are evaluated: the generator only puts side-effect free calls here, so short-circuiting is
+            #  not observable)
+            a, b = self.ev(e[1], env), self.ev(e[2], env)
+            return (INT, int((a[1] != 0 and b[1] != 0) if k == "land" else (a[1] != 0 or b[1] != 0)))
         if k == "cond":
             c = self.ev(e[1], env)
             # the result type is the common type of both arms, whichever is taken
@@ -143,7 +150,7 @@ class CRef:
             return common(self.static_type(e[2], env), self.static_type(e[3], env))
         if k == "shift":
             return promote(self.static_type(e[2], env))
-        if k == "cmp":
+        if k in ("cmp", "lnot", "land", "lor"):
             return INT
         if k in ("neg", "not"):
             return promote(self.static_type(e[1], env))
@@ -250,6 +257,10 @@ def show_expr(e) -> str:
         return f"(-{show_expr(e[1])})"
     if k == "not":
         return f"(~{show_expr(e[1])})"
+    if k == "lnot":
+        return f"(!{show_expr(e[1])})"
+    if k in ("land", "lor"):
+        return f"({show_expr(e[1])} {'&&' if k == 'land' else '||'} {show_expr(e[2])})"
     if k == "cond":
         return f"({show_expr(e[1])} ? {show_expr(e[2])} : {show_expr(e[3])})"
     if k == "postinc":
